@@ -19,3 +19,5 @@ package index
 // C29 (see zz_verif_contracts_c29.go): turning score debugging on changes no
 // score and no order - the flag only guards code that builds the debug strings.
 //@   debug_only SearchOptions.DebugScore writes debugScore, DebugScore, Debug, what
+// C29: scores do not depend on the (random) iteration order of Go maps.
+//@   map_order_independent
